@@ -73,9 +73,18 @@ func randomOne(id int, seed int64, deadline time.Duration, attempt int) randomRe
 			cs = append(cs, choice{"ns", wNS})
 		}
 		if f.upLocked() && failsLeft > 0 {
-			cs = append(cs, choice{"fail", 0.15})
+			cs = append(cs, choice{"fail", 0.15}, choice{"silent", 0.1})
 		}
-		if len(cs) == 0 || (len(cs) == 1 && cs[0].name == "fail") {
+		if f.silentNowLocked() {
+			cs = append(cs, choice{"detect", 0.4}) // the keepalive fires after a while
+		}
+		onlyFaults := true
+		for _, c := range cs {
+			if c.name != "fail" && c.name != "silent" {
+				onlyFaults = false
+			}
+		}
+		if len(cs) == 0 || onlyFaults {
 			// nothing for the environment to do: the client is in its retry timer, or blocked
 			f.mu.Unlock()
 			if idleSince.IsZero() {
@@ -117,6 +126,11 @@ func randomOne(id int, seed int64, deadline time.Duration, attempt int) randomRe
 		case "fail":
 			f.failStreamLocked()
 			failsLeft--
+		case "silent":
+			f.silentLocked()
+			failsLeft--
+		case "detect":
+			f.detectLocked()
 		}
 		f.mu.Unlock()
 		if pick == "wait" {
